@@ -85,6 +85,11 @@ func NewParser(srcPath, dstPath string) (*Parser, error) {
 	if fileSrc == nil && parseErr != nil {
 		return nil, logger.Errorf("%v: %v", srcPath, parseErr)
 	}
+	if fileSrc == nil {
+		// The loader never handed the input file to ParseFile, e.g. because the output path
+		// is the input file itself and was therefore skipped.
+		return nil, logger.Errorf("%v: the input file was not loaded; the output path must differ from the input path", srcPath)
+	}
 	return &Parser{
 		srcPath: fileSet.Position(fileSrc.Pos()).Filename,
 		fset:    fileSet,
